@@ -143,7 +143,10 @@ def batchPath (bytes : Bytes) : Outcome BatchPath :=
   (indLoop bytes off lenI 0).bind fun indices =>
   .ok { values, indices }
 
-/-! ### `ConcatenationProof::from_bytes_legacy` (checked after the fix, no pre-allocation) -/
+/-! ### `ConcatenationProof::from_bytes_legacy` (checked after the fix, no pre-allocation)
+Each element goes through the VERSIONED `SingleSignatureWithRegisteredParty::from_bytes`: an element starting with
+the CBOR version byte is the (unmodelled) CBOR branch; when that succeeds the loop goes on with the next element
+at `sig_reg_end` as for a legacy element. -/
 def sigRegLoop (O : Oracle) (bytes : Bytes) : Nat → Nat → Outcome (Nested (List (SingleSig × RegEntry)) × Nat)
   | 0, idx => .ok (.val [], idx)
   | k + 1, idx =>
@@ -151,7 +154,7 @@ def sigRegLoop (O : Oracle) (bytes : Bytes) : Nat → Nat → Outcome (Nested (L
     (ofOption (slice? bytes idx st)).bind fun b =>
     (addChecked st (beU64 b)).bind fun en =>
     (ofOption (slice? bytes st en)).bind fun sb =>
-    (sigReg O sb).bind fun sr =>
+    (if isCborPrefix sb then .ok .cbor else sigReg O sb).bind fun sr =>
     (sigRegLoop O bytes k en).bind fun rest =>
     match sr, rest.1 with
     | .val x, .val xs => .ok (.val (x :: xs), rest.2)
@@ -371,7 +374,11 @@ theorem sigRegLoop_total (O : Oracle) (bytes : Bytes) (hlen : bytes.length < 2 ^
       cases hs : slice? bytes st en with
       | none => simp [hs, ofOption] at hsb
       | some r => simp [hs, ofOption] at hsb; subst hsb; exact slice?_length_le hs
-    apply isPanic_bind _ _ (sigReg_total O sb (by omega)); intro sr
+    have hel : isPanic (if isCborPrefix sb then Outcome.ok Nested.cbor else sigReg O sb) = false := by
+      split
+      · rfl
+      · exact sigReg_total O sb (by omega)
+    apply isPanic_bind _ _ hel; intro sr
     apply isPanic_bind _ _ (ih _); intro rest
     cases sr <;> cases rest.1 <;> rfl
 
